@@ -109,9 +109,15 @@ def table_case(res, drv, tmp, k, t, t2, idents, idents2, empty_reload):
     with contextlib.redirect_stdout(io.StringIO()):
         sq = SQL.Authenticator(':memory:')
     sqlite_ok = True
+    def column(lst, salt):
+        # an identity configured WITHOUT a channel list: the column holds '[]', or was left out of the INSERT (NULL),
+        # or is blank - which of the three is a deterministic function of the ident (so that a script replays)
+        if lst:
+            return json.dumps(lst)
+        return ('[]', None, '')[(len(ident) + salt) % 3]
     for ident, r in t.items():
         sq.sql.execute('insert into authkeys (owner, ident, secret, pubchans, subchans) values (?,?,?,?,?)',
-                       (r['owner'], ident, r['secret'], json.dumps(r['pubchans']), json.dumps(r['subchans'])))
+                       (r['owner'], ident, r['secret'], column(r['pubchans'], 0), column(r['subchans'], 1)))
     mem2 = MEM.Authenticator(t2)
     m12, m21 = MULTI.Authenticator(), MULTI.Authenticator()
     m12.add(mem), m12.add(mem2)
